@@ -291,6 +291,7 @@ def run_case(case):
     variant = case["variant"]
     fault = case["fault"]
     props = {YowIqProtocolLayer.PROP_PING_INTERVAL: 0}
+    TR.install()      # before any layer object exists (the parallel group creates its members at once)
     rig = TR.Rig(choices=case.get("choices", ()), upper=upper_layers(variant), props=props, preempt=case.get("preempt"))
     try:
         return _run(case, out, rig, variant, fault)
@@ -369,7 +370,9 @@ def _run(case, out, rig, variant, fault):
     if kind == "inject":
         install_fault(rig, fault, state)
     if kind == "app_raises":
-        rig.top.raise_on = "receipt"
+        # the application fails on the first receipt - or on the reply to a ping it sent itself (the iq layer hands that one
+        # upward from inside its own bookkeeping of outstanding pings)
+        rig.top.raise_on = "iq" if fault.get("on") == "pong" else "receipt"
     held0 = [repr(l) for l in S.held_locks()]
     if held0:
         out.fail("locks", "locks_held_after_login", {"locks": held0})
@@ -382,24 +385,40 @@ def _run(case, out, rig, variant, fault):
     programs = case["tasks"]
     natural_pos = fault.get("pos", 0)
 
+    from yowsup.layers.protocol_iq.protocolentities import PingIqProtocolEntity
+    pings = {(ti, k): PingIqProtocolEntity() for ti, prog in enumerate(programs) for k, op in enumerate(prog) if op == "ping"}
+
     def make_sender(ti, prog):
         def f():
             for k, op in enumerate(prog):
                 ident = "t%d-%d" % (ti, k)
                 stanza = bad_stanza(variant, ident) if op == "bad" else out_stanza(variant, ident)
+                if op == "ping":
+                    stanza = pings[(ti, k)]
+                    ident = stanza.getId()
                 try:
                     if op == "oversize":
                         rig.stack.getLayer(3).toLower(bytearray(fault.get("size", 2 ** 24)))
                     else:
                         rig.top.toLower(stanza)
                     results[ident] = "ok"
-                    if op == "ok":
+                    if op in ("ok", "ping"):
                         sent_ok.append(ident)
                 except S._Stop:
                     raise
                 except Exception as e:
                     results[ident] = "raised:" + type(e).__name__
         return f
+    pre_ping = None
+    if kind == "app_raises" and fault.get("on") == "pong":
+        # the application's ping is on its way before anything else happens, so that the reply finds its request registered
+        pre_ping = PingIqProtocolEntity()
+
+        def send_ping():
+            rig.top.toLower(pre_ping)
+            sent_ok.append(pre_ping.getId())
+        rig.sched.spawn("pinger", send_ping)
+        rig.shuttle()
     for ti, prog in enumerate(programs):
         rig.sched.spawn("sender%d" % ti, make_sender(ti, prog))
     incoming = case.get("incoming", [])
@@ -408,6 +427,11 @@ def _run(case, out, rig, variant, fault):
         ident = "in-%d" % j
         if ik == "garbage":
             rig.server.send_frame(b"\x00\xf8\x05\x09")     # list of 5 with nothing behind it: undecodable
+        elif ik == "pong":
+            if pre_ping is not None:
+                pid = pre_ping.getId()
+                rig.server.send_frame(R.encode(("iq", {"id": pid, "type": "result", "from": "s.whatsapp.net"}, None)))
+                out.label("pong_for_application_ping")
         else:
             rig.server.send_frame(R.encode(in_stanza(ik, ident)))
             if ik == "receipt":
@@ -598,6 +622,9 @@ def _enum_sites():
                "incoming": ["receipt", kind, "receipt", "receipt"], "choices": [], "reconnect": True}
     yield {"sub": "fault", "variant": "proto", "fault": {"kind": "app_raises"}, "tasks": [["ok"], ["ok"]],
            "incoming": ["receipt", "receipt", "receipt"], "choices": [], "reconnect": True}
+    for tasks in ([["ping"], ["ok"]], [["ping", "ok"], ["ok", "ping"]]):
+        yield {"sub": "fault", "variant": "proto", "fault": {"kind": "app_raises", "on": "pong"}, "tasks": tasks,
+               "incoming": ["pong", "receipt", "receipt"], "choices": [], "reconnect": True}
 
 
 def case_strategy():
@@ -624,6 +651,10 @@ def case_strategy():
             elif kind in ("garbage", "picture_bad", "streamerror_bad"):
                 pos = draw(st.integers(0, len(incoming)))
                 incoming.insert(pos, kind)
+            elif kind == "app_raises" and draw(st.booleans()):
+                fault["on"] = "pong"
+                tasks[draw(st.integers(0, ntasks - 1))].insert(0, "ping")
+                incoming.insert(draw(st.integers(0, len(incoming))), "pong")
             elif kind == "app_raises" and not incoming:
                 incoming.append("receipt")
         choices = draw(st.lists(st.integers(0, 7), min_size=0, max_size=draw(st.sampled_from([0, 10, 60, 200]))))
